@@ -74,8 +74,7 @@ class Codec:
         out = []
         for cond, body in j2text.branches_of(N, chain):
             if cond == "else":
-                closed = any(isinstance(x, N.CallBlock) and "_do_assert" in xs(x.call) and xs(x.call.args[0]) == "False"
-                             for b in body for x in [b] + list(b.find_all(N.CallBlock)))
+                closed = any(j2front.is_assert_false(N, x) for b in body for x in j2front.find_asserts(N, b))
                 out.append(("else", closed))
                 continue
             cls = re.match(r"^\(t is (\w+)\)$", cond)
